@@ -26,7 +26,7 @@ def prop(pid, rules, explanation, minimum=None, assumptions=None):
 
 prop('C01',
      [T.rule_lookup_shape, T.rule_chain, T.rule_total_ber, T.rule_pair_ber, T.rule_fragment_tag_ber, A.rule_a7_unit,
-      A.rule_a8_pairing, W.rule_encode_header, W.rule_decode_header, A.rule_c04_default, E.rule_option_latch, A.rule_a6_spec, Z.rule_encode_tag_arms, Z.rule_bits_prepend, Z.rule_option_scope],
+      A.rule_a8_pairing, W.rule_encode_header, W.rule_decode_header, A.rule_c04_default, E.rule_option_latch, A.rule_a6_spec, Z.rule_encode_tag_arms, Z.rule_bits_prepend, Z.rule_option_scope, A.rule_a6_optdef],
      'Static necessary conditions of the BER round trip: every type class has an encoder by type and a decoder by type; '
      'writer and reader of each type belong to the same codec family; string segments are tagged by the writer as the '
      'reader demands and as X.690 8.23.6 says; chunks are slices of the measured octets; end-of-octets is appended iff '
@@ -38,7 +38,7 @@ prop('C01',
 
 prop('C02',
      [T.rule_chain, T.rule_derived, T.rule_total_canon, T.rule_pair_canon, T.rule_modes, T.rule_keykind,
-      T.rule_fragment_tag_canon, A.rule_a7_unit, A.rule_a8_pairing, E.rule_option_latch, A.rule_c04_default, A.rule_a6_spec, Z.rule_real_normalisation],
+      T.rule_fragment_tag_canon, A.rule_a7_unit, A.rule_a8_pairing, E.rule_option_latch, A.rule_c04_default, A.rule_a6_spec, Z.rule_real_normalisation, A.rule_a6_optdef],
      'CER/DER tables are derived from and total w.r.t. BER, fixed encoder modes match X.690 9/10 and override caller '
      'options, codec families pair up, string segments agree between the CER writer and every reader, end-of-octets '
      'pairs with the indefinite header.  Equality of decoded values is not decided.',
@@ -96,13 +96,13 @@ prop('C08',
       'W.content': 15})
 
 prop('C09',
-     [T.rule_ber_lax, T.rule_fragment_tag_ber, A.rule_a7_nested, A.rule_a6_spec, W.rule_decode_header, Z.rule_bits_prepend, Z.rule_constructed_yields],
+     [T.rule_ber_lax, T.rule_fragment_tag_ber, A.rule_a7_nested, A.rule_a6_spec, W.rule_decode_header, Z.rule_bits_prepend, Z.rule_constructed_yields, A.rule_a6_optdef],
      'BER decoder stays lax where X.690 allows choice: any non-zero TRUE, constructed strings with OCTET STRING '
      'segments (nested too), indefinite lengths, long-form lengths with leading zeros, SET members looked up by tag in '
      'any position in both length forms (sibling agreement of the record loops).  Length arithmetic is not decided.',
      {'A1.lax': 35, 'A7.tag': 30, 'A7.nested': 4, 'A6.spec': 3, 'W.dec': 10})
 
-prop('C10', [A.rule_c10, A.rule_a6_spec, X.rule_nonevalue, A.rule_c14, Z.rule_choice_result],
+prop('C10', [A.rule_c10, A.rule_a6_spec, X.rule_nonevalue, A.rule_c14, Z.rule_choice_result, A.rule_a6_optdef],
      'Spec-guided exits of the constructed decoders: required components present; constraints (isInconsistent) checked '
      'before the value is returned; result is an ASN.1 object built from the guiding type.  The re-encode fixpoint is not decided.',
      {'C10.req': 2, 'C10.cons': 6, 'A13.value': 20})
@@ -129,7 +129,7 @@ prop('C13', [T.rule_x680, A.rule_c13, W.rule_encode_header, W.rule_decode_header
      'identifier-octet guards match X.690 8.1.2.  Multi-octet identifier arithmetic is decided only up to its guards.',
      {'C13.expl': 2, 'C13.impl': 1, 'C13.cmp': 9, 'C13.sub': 2, 'C13.enc': 1, 'C13.dec': 1, 'C13.model': 3, 'A1.x680': 35})
 
-prop('C14', [A.rule_c14],
+prop('C14', [A.rule_c14, Z.rule_constraint_denotation],
      'Single constraint funnel for scalar payloads (who-may-write + must-pass-through), derivation only extends '
      'constraints and records ancestry, encoders refuse inconsistent constructed values.  The set-theoretic denotation '
      'of the _testValue comparisons is not decided.',
